@@ -581,7 +581,7 @@ def monitorCall (cfg : Cfg) (cmp : String) (m : MonSt) (name : String) (ln : Nat
         r.viol s!"C08 unannounced_release@{site}" s!"{here}: identifiers {silent} were in use before the call and are free after it, no NotifyPacketIdReleased was issued and no new session started: {evS}" else r
     let r := if op = ["closed"] ∧ !m.prev.isEmpty then
         let must := idsOf (gp "suback") ++ idsOf (gp "unsuback") ++
-          (if gp "need_store" = "0" then idsOf (gp "puback") ++ idsOf (gp "pubrec") ++ idsOf (gp "pubcomp") else [])
+          (if !m.nsGhost then idsOf (gp "puback") ++ idsOf (gp "pubrec") ++ idsOf (gp "pubcomp") else [])
         let kept := must.filter fun id => usedBefore id && !ivContains after id
         if !kept.isEmpty then
           r.viol s!"C08 not_released_on_close@{site}" s!"{here}: identifiers {kept} of exchanges that end with the connection are still in use after the transport was reported closed: {evS}" else r
@@ -609,6 +609,25 @@ def monitorCall (cfg : Cfg) (cmp : String) (m : MonSt) (name : String) (ln : Nat
         if !left.isEmpty then
           r.viol s!"C10 old_session_survives@{site}" s!"{here}: this call starts a new session (clean start, or session not present), yet session state is left afterwards: {left.map fun k => s!"{k}=[{g k}]"}; events: {evS}" else r
       else r
+    -- C08: closing a persistent session releases only the identifiers of SUBSCRIBE / UNSUBSCRIBE exchanges
+    let r := if op = ["closed"] ∧ !m.prev.isEmpty ∧ m.nsGhost then
+        let pubIds := idsOf (gp "puback") ++ idsOf (gp "pubrec") ++ idsOf (gp "pubcomp")
+        let bad := rel.filter fun id => pubIds.contains id
+        if !bad.isEmpty then
+          r.viol s!"C08 released_on_persistent_close@{site}" s!"{here}: the session is persistent, yet closing the transport released the identifiers {bad} of QoS 1/2 exchanges that are still in flight: {evS}" else r
+      else r
+    -- C06: an erased publish is awaited by nothing any more
+    let r := match op with
+      | ["erase", v] =>
+        (match v.toNat? with
+         | some id =>
+           if (storeIds (gp "store")).contains id ∧ (idsOf (g "puback") ++ idsOf (g "pubrec")).contains id ∧ !(storeIds (g "store")).contains id then
+             r.viol s!"C06 erased_still_awaited@{site}" s!"{here}: the stored PUBLISH {id} was erased but the connection still waits for its acknowledgement (puback=[{g "puback"}] pubrec=[{g "pubrec"}])" else r
+         | none => r)
+      | _ => r
+    -- C10: no timer of the closed connection stays armed
+    let r := if op = ["closed"] ∧ flags ≠ "000" then
+        r.viol s!"C10 timer_survives_close@{site}" s!"{here}: after the transport was reported closed the timers {flags} (send,recv,resp) are still armed on the application side (no cancel was requested): {evS}" else r
     -- C06
     let stB := storeIds (gp "store")
     let stA := storeIds (g "store")
@@ -665,7 +684,7 @@ def monitorCall (cfg : Cfg) (cmp : String) (m : MonSt) (name : String) (ln : Nat
     let erasedId : List Nat := match op with | ["erase", v] => (v.toNat?.map ([·])).getD [] | _ => []
     let gone := stB.filter fun id => !stA.contains id
     let unjust := gone.filter fun id => !ackedIds.contains id && !erasedId.contains id && !rel.contains id
-    let r := if !m.prev.isEmpty ∧ !unjust.isEmpty ∧ !newSession ∧ !(op = ["closed"] ∧ gp "need_store" = "0") then
+    let r := if !m.prev.isEmpty ∧ !unjust.isEmpty ∧ !newSession ∧ !(op = ["closed"] ∧ !m.nsGhost) then
         violStore "stored_packet_vanished" r s!"{here}: stored packets {unjust} left the store without matching acknowledgement, erase, oversize drop or new session: {evS}" else r
     let r := match op with
       | "recv" :: _ =>
